@@ -468,6 +468,10 @@ func syncCloneTable(repo string) (string, string, error) {
 	if err != nil {
 		return "", "", err
 	}
+	pwInKey, dumpPushes, err := poolKeyAndDump(repo)
+	if err != nil {
+		return "", "", err
+	}
 	hsCustomClears, hsFingerSets, err := handshakeSetters(repo)
 	if err != nil {
 		return "", "", err
@@ -580,7 +584,7 @@ func syncCloneTable(repo string) (string, string, error) {
 		"   slices: Cookies, roundTripWrappers, httpRoundTripWrappers, udBeforeRequest, afterResponse, t2.Settings, t2.PriorityFrames\n" +
 		"   maps:   Headers, QueryParams, FormData, PathParams;  t_rt: retryOption;  t_scal: the value-typed settings\n" +
 		"   (by key, Model/Settings.v) Clone carries over *)\n" +
-		"From Coq Require Import List String.\nFrom ReqV Require Import Model.Settings Model.ReExec Model.LiveSel Model.Handshake.\nImport ListNotations.\n" +
+		"From Coq Require Import List String.\nFrom ReqV Require Import Model.Settings Model.ReExec Model.LiveSel Model.Handshake Model.PoolKey Model.DumpCtx.\nImport ListNotations.\n" +
 		"Definition gen_tbl : ctbl :=\n  {| t_sl := [" + strings.Join(sl, "; ") + "];\n     t_mp := [" + strings.Join(mp, "; ") + "];\n     t_rt := " + b(clientDeep["retryOption"]) + ";\n" +
 		"     t_scal := [" + strings.Join(scal, "; ") + "];\n" +
 		"     t_jar := " + b(jarInit) + "; t_dopt := " + b(clientDeep["dumpOptions"]) + "; t_dumper := " + b(optionsCloned && dumperCloned) + "; t_link := " + b(dumpLink) + ";\n" +
@@ -603,7 +607,11 @@ func syncCloneTable(repo string) (string, string, error) {
 		"(* Transport.roundTrip: the cached HTTP/2 connection lookup is guarded by t.forceHttpVersion != h1 *)\n" +
 		"Definition gen_guard : lguard := {| g_h1guard := " + b(h1guard) + " |}.\n" +
 		"(* Transport.SetTLSHandshake clears the fingerprint hook; setTLSFingerprint sets it after installing the handshake; Transport.Clone runs it *)\n" +
-		"Definition gen_hs : hs_tbl := {| h_custom_clears_hook := " + b(hsCustomClears) + "; h_finger_sets_hook := " + b(hsFingerSets) + "; h_clone_runs_hook := " + b(fpReinstall) + " |}.\n"
+		"Definition gen_hs : hs_tbl := {| h_custom_clears_hook := " + b(hsCustomClears) + "; h_finger_sets_hook := " + b(hsFingerSets) + "; h_clone_runs_hook := " + b(fpReinstall) + " |}.\n" +
+		"(* connectMethod.key: the proxy part of the pool key is proxyURL.String() (password included) *)\n" +
+		"Definition gen_key : ktbl := {| k_pw_in_key := " + b(pwInKey) + " |}.\n" +
+		"(* Request.EnableDump stores its dumper without an early return *)\n" +
+		"Definition gen_dump : dtbl := {| d_always_pushes := " + b(dumpPushes) + " |}.\n"
 	return "CloneTable.v", out, nil
 }
 
@@ -874,4 +882,82 @@ func handshakeSetters(repo string) (customClears, fingerSets bool, err error) {
 	}
 	fingerSets = hook > install
 	return customClears, fingerSets, nil
+}
+
+// poolKeyAndDump reads (1) connectMethod.key (transport.go): is proxyStr assigned cm.proxyURL.String()?
+// (2) Request.EnableDump (request.go): does the body reach its SetContext(...WithValue(... DumperKey ...)) without a
+// return statement before it?
+func poolKeyAndDump(repo string) (pwInKey, dumpPushes bool, err error) {
+	fs := token.NewFileSet()
+	tf, err := parser.ParseFile(fs, filepath.Join(repo, "transport.go"), nil, 0)
+	if err != nil {
+		return false, false, err
+	}
+	foundKey := false
+	for _, d := range tf.Decls {
+		fd, ok := d.(*ast.FuncDecl)
+		if !ok || fd.Name.Name != "key" || fd.Recv == nil || fd.Body == nil {
+			continue
+		}
+		ast.Inspect(fd.Body, func(n ast.Node) bool {
+			as, ok := n.(*ast.AssignStmt)
+			if !ok || len(as.Lhs) != 1 || len(as.Rhs) != 1 {
+				return true
+			}
+			if id, ok := as.Lhs[0].(*ast.Ident); ok && id.Name == "proxyStr" {
+				if c, ok := as.Rhs[0].(*ast.CallExpr); ok {
+					if sel, ok := c.Fun.(*ast.SelectorExpr); ok {
+						if x, ok := sel.X.(*ast.SelectorExpr); ok && x.Sel.Name == "proxyURL" {
+							foundKey = true
+							pwInKey = sel.Sel.Name == "String"
+						}
+					}
+				}
+			}
+			return true
+		})
+	}
+	if !foundKey {
+		return false, false, fmt.Errorf("transport.go: connectMethod.key no longer builds proxyStr from cm.proxyURL; Model/PoolKey.v must be revisited")
+	}
+	rf, err := parser.ParseFile(fs, filepath.Join(repo, "request.go"), nil, 0)
+	if err != nil {
+		return false, false, err
+	}
+	foundDump := false
+	for _, d := range rf.Decls {
+		fd, ok := d.(*ast.FuncDecl)
+		if !ok || fd.Name.Name != "EnableDump" || fd.Recv == nil || fd.Body == nil {
+			continue
+		}
+		foundDump = true
+		dumpPushes = false
+		for _, st := range fd.Body.List {
+			storesDumper := false
+			ast.Inspect(st, func(n ast.Node) bool {
+				if sel, ok := n.(*ast.SelectorExpr); ok && sel.Sel.Name == "SetContext" {
+					storesDumper = true
+				}
+				return true
+			})
+			if storesDumper {
+				dumpPushes = true
+				break
+			}
+			hasReturn := false
+			ast.Inspect(st, func(n ast.Node) bool {
+				if _, ok := n.(*ast.ReturnStmt); ok {
+					hasReturn = true
+				}
+				return true
+			})
+			if hasReturn {
+				break // a return before the dumper is stored
+			}
+		}
+	}
+	if !foundDump {
+		return false, false, fmt.Errorf("request.go: Request.EnableDump not found; Model/DumpCtx.v must be revisited")
+	}
+	return pwInKey, dumpPushes, nil
 }
